@@ -190,6 +190,34 @@ def b(f):
     return lambda *a: V(f(*[x.bv if isinstance(x, V) else x for x in a]))
 
 
+def read_zdd_one(mgr, i):
+    """CUDD: univ[i], the ZDD of all subsets of the variables from level i
+    down; as a Boolean function: every variable above level i is FALSE
+    (i == 0: the constant TRUE)."""
+    if isinstance(i, int):
+        r = ONES
+        for j in range(min(i, L)):
+            r = r & ~VARBV[j]
+        return V(r)
+    iz = engine._z(i)
+    r = ONES
+    acc = ONES
+    out = ONES
+    for k in range(1, L + 1):
+        acc = acc & ~VARBV[k - 1]
+        out = z3.If(iz >= k, acc, out)
+    return V(out)
+
+
+def node_read_index(node):
+    """index of the top variable of a node: some index 0..L (not determined
+    by the function alone in a ZDD, so it is left arbitrary)"""
+    c = engine.CTX
+    i = c.fresh_int('topindex')
+    c.assume(z3.And(i >= 0, i <= L))
+    return engine.SymInt(i)
+
+
 def lib_namespace():
     import dd._abc as A
     import dd._utils as U
@@ -201,7 +229,8 @@ def lib_namespace():
         Cudd_ReadOne=lambda m: V(ONES), Cudd_ReadLogicZero=lambda m: V(ZERO),
         Cudd_bddUnivAbstract=b(lambda m, f, c: quant_by_support(f, c, True)),
         Cudd_bddExistAbstract=b(lambda m, f, c: quant_by_support(f, c, False)),
-        Cudd_ReadZddOne=lambda m, i: V(ONES),
+        Cudd_ReadZddOne=read_zdd_one, Cudd_NodeReadIndex=node_read_index,
+        Cudd_ReadPerm=lambda m, i: i, Cudd_ReadPermZdd=lambda m, i: i,
         Cudd_zddDiff=b(lambda m, a, c: a & ~c), Cudd_zddUnion=b(lambda m, a, c: a | c),
         Cudd_zddIntersect=b(lambda m, a, c: a & c),
         Cudd_zddIte=b(lambda m, g, a, c: (g & a) | (~g & c)),
@@ -363,7 +392,7 @@ def replay(case):
     vals = [z3.BitVecVal(case[k], W) for k in 'uvw']
     me = Mgr()
     engine.CTX = engine.Ctx()
-    want = z3.simplify(ref_apply(B, op, vals[0], vals[1] if ar > 1 else None, vals[2] if ar > 2 else None))
+    want = ref_apply(B, op, vals[0], vals[1] if ar > 1 else None, vals[2] if ar > 2 else None)
     try:
         got = ns['apply'](me, op, *[Node(V(x), me) for x in vals[:ar]])
     except Exception as e:
@@ -371,10 +400,17 @@ def replay(case):
             return dict(violates=False, detail='outside BuDDy subset', observed=dict(outcome='returned'))
         return dict(violates=True, key=f'pyx/{which}/rejects-documented-operator',
                     detail=f'{which}.apply({op!r}) raises {e!r}', observed={})
-    gv = z3.simplify(got.bv if isinstance(got, V) else got.node.bv)
-    if gv.as_long() != want.as_long():
+    gv = got.bv if isinstance(got, V) else got.node.bv
+    # operands are concrete; anything the library model leaves open (e.g. the
+    # index of a node's top variable) is decided by the solver
+    ctx = engine.CTX
+    r = ctx.check(gv != want)
+    if r == z3.sat:
+        mdl = ctx.solver.model()
+        g1 = mdl.eval(gv, model_completion=True).as_long()
+        w1 = mdl.eval(want, model_completion=True).as_long()
         role = 'quantifier-roles' if fam in ('forall', 'exists') else 'connective'
         return dict(violates=True, key=f'pyx/{which}/{role}',
-                    detail=f'{which}.pyx apply({op!r}, u={case["u"]:#06b}, v={case["v"]:#06b}) gives {gv.as_long():#06b}, '
-                           f'dd.bdd.BDD.apply gives {want.as_long():#06b}', observed=dict(outcome='returned'))
+                    detail=f'{which}.pyx apply({op!r}, u={case["u"]:#06b}, v={case["v"]:#06b}) gives {g1:#06b}, '
+                           f'dd.bdd.BDD.apply gives {w1:#06b}', observed=dict(outcome='returned'))
     return dict(violates=False, detail='ok', observed=dict(outcome='returned'))
